@@ -396,15 +396,24 @@ def param_kinds(params):
 
 
 def template_guard(templates, trailing):
+    """SFINAE guard in the template header.  The direction of the conversion
+    guards matters: `enable_if_convertible_t<Byte2, Byte>` (other -> this) and
+    `enable_if_cursor_compatible_t/_writeable_t<Byte, CursorByte>` (view ->
+    cursor); any other argument order is reported as `misdirected`."""
     t = ' '.join(templates)
+    cur2 = r'(?:Byte2|(?:::sbepp::detail::|detail::)?cursor_byte_type_t<\s*Cursor\s*>)'
     if 'enable_if_cursor_writeable_t' in t:
-        return 'cursorWriteable'
-    if 'enable_if_writable_t' in t or re.search(r'!\s*std::is_const<\s*Byte\s*>::value', t):
+        return 'cursorWriteable' if re.search(r'enable_if_cursor_writeable_t<\s*Byte\s*,\s*' + cur2 + r'\s*>', t) \
+            else 'misdirected'
+    if 'enable_if_writable_t' in t:
+        return 'writable' if re.search(r'enable_if_writable_t<\s*Byte\s*[,>]', t) else 'misdirected'
+    if re.search(r'!\s*std::is_const<\s*Byte\s*>::value', t):
         return 'writable'
     if 'enable_if_cursor_compatible_t' in t:
-        return 'cursorCompatible'
+        return 'cursorCompatible' if re.search(r'enable_if_cursor_compatible_t<\s*Byte\s*,\s*' + cur2 + r'\s*>', t) \
+            else 'misdirected'
     if 'enable_if_convertible_t' in t:
-        return 'convertible'
+        return 'convertible' if re.search(r'enable_if_convertible_t<\s*Byte2\s*,\s*Byte\s*>', t) else 'misdirected'
     return 'none'
 
 
@@ -555,6 +564,7 @@ def mk_row(origin, cls, fn, scope, selfbyte, line, file):
         'origin': origin, 'cls': cls, 'name': fn['name'], 'sig': norm(sig)[:300], 'line': line, 'file': file,
         'scope': scope if fn['access'] == 'public' else 'internal', 'access': fn['access'], 'self': selfbyte,
         'kinds': kinds, 'usesCursor': 'cursor' in kinds,
+        'takesOtherByte': bool(re.search(r'<\s*Byte2\b', fn['params'])),
         'tguard': template_guard(fn['templates'], fn['trailing']),
         'templates': fn['templates'], 'trailing': fn['trailing'],
         'direct': direct_writes(body), 'calls': calls(body, fn['trailing'], cls not in CURSORLIKE) if (fn['body'] is not None or fn['trailing']) else [],
@@ -643,6 +653,38 @@ def extract(repo, outdir):
             pos = m.end()
         if not found:
             report['failed']['function ' + fname] = 'not found'
+    # ---------------- definitions of the guards themselves
+    defs = []
+    nows = lambda x: re.sub(r'\s+', '', x)   # noqa: E731
+    for name in ('enable_if_t', 'enable_if_convertible_t', 'enable_if_writable_t', 'enable_if_cursor_compatible_t',
+                 'enable_if_cursor_writeable_t', 'apply_cv_qualifiers_t', 'cursor_byte_type_t'):
+        m = re.search(r'template\s*<([^;{}]*?)>\s*using\s+' + name + r'\s*=\s*([^;]*);', src)
+        if not m:
+            report['failed']['alias ' + name] = 'not found'
+            continue
+        defs.append((name, nows(m.group(1)), nows(m.group(2))))
+    try:
+        s0, e0 = cxx.find_class_body(src, 'copy_cv_qualifiers')
+        for an in ('copy_const_t', 'type'):
+            m = re.search(r'using\s+' + an + r'\s*=\s*([^;]*);', src[s0:e0])
+            if m:
+                defs.append(('copy_cv_qualifiers::' + an, '', nows(m.group(1))))
+            else:
+                report['failed']['alias copy_cv_qualifiers::' + an] = 'not found'
+    except (cxx.ExtractError, ValueError) as ex:
+        report['failed']['class copy_cv_qualifiers'] = str(ex)
+    for cls in ('static_array_ref', 'dynamic_array_ref'):
+        try:
+            s0, e0 = cxx.find_class_body(src, cls)
+        except (cxx.ExtractError, ValueError):
+            continue
+        for an in ('element_type', 'reference', 'pointer', 'iterator'):
+            m = re.search(r'using\s+' + an + r'\s*=\s*([^;]*);', src[s0:e0])
+            if m:
+                defs.append(('%s::%s' % (cls, an), '', nows(m.group(1))))
+            else:
+                report['failed']['alias %s::%s' % (cls, an)] = 'not found'
+    report['guard_definitions'] = defs
     # ---------------- generator templates
     gdir = os.path.join(repo, GEN_DIR)
     gen_digest = hashlib.sha256()
@@ -830,18 +872,21 @@ def extract(repo, outdir):
     for r in rows:
         lines.append(
             '  { id := %d, origin := .%s, cls := %s, name := %s, sig := %s, line := %d, scope := .%s,\n'
-            '    usesCursor := %s, guard := .%s, direct := [%s], callees := [%s],\n'
+            '    usesCursor := %s, takesOtherByte := %s, guard := .%s, direct := [%s], callees := [%s],\n'
             '    calleeNames := [%s], keys := [%s], writes := %s }' % (
                 r['id'], r['origin'], q(r['cls']), q(r['name']), q(r['sig']), r['line'], r['scope'],
-                'true' if r['usesCursor'] else 'false', r['guard'],
+                'true' if r['usesCursor'] else 'false', 'true' if r['takesOtherByte'] else 'false', r['guard'],
                 ', '.join('.' + h for h in r['handles']), ', '.join(str(t) for t in r['callee_ids']),
                 ', '.join(q(n) for n in r['callee_names']), ', '.join(q(k) for k in r['keys']),
                 'true' if r['writes'] else 'false'))
     text = ('-- GENERATED by /verif/extract/guards.py from %s and %s/*.hpp on every check run. Do not edit.\n'
             'import Sbepp.Rt.ConstGraph\n\nnamespace Sbepp.Extracted\nopen Sbepp.Rt.ConstGraph\n\n'
             '/-- recursion depth of the callee graph (+2) -/\ndef guardFuel : Nat := %d\n\n'
+            '/-- the definitions of the guard aliases and of the element handle types (whitespace removed) -/\n'
+            'def guardDefs : List (String × String × String) := [\n%s\n]\n\n'
             'def guardRows : List GuardRow := [\n%s\n]\n\nend Sbepp.Extracted\n' % (
-                HPP, GEN_DIR, maxdepth + 2, ',\n'.join(lines)))
+                HPP, GEN_DIR, maxdepth + 2, ',\n'.join('  (%s, %s, %s)' % (q(a), q(b), q(c)) for a, b, c in defs),
+                ',\n'.join(lines)))
     write_if_changed(os.path.join(outdir, 'Guards.lean'), text)
     report['rows'] = len(rows)
     report['writers'] = sum(1 for r in rows if r['writes'])
@@ -850,10 +895,70 @@ def extract(repo, outdir):
         if r['writes']:
             report['by_guard'][r['guard']] = report['by_guard'].get(r['guard'], 0) + 1
     report['table'] = [{k: r[k] for k in ('id', 'origin', 'cls', 'name', 'sig', 'line', 'scope', 'access', 'usesCursor',
-                                          'guard', 'handles', 'callee_names', 'keys', 'writes')}
+                                          'takesOtherByte', 'guard', 'handles', 'callee_names', 'callee_ids', 'keys',
+                                          'writes')}
                        | {'direct': [list(d) for d in r['direct']]} for r in rows]
     report['fuel'] = maxdepth + 2
     return report
+
+
+# ------------------------------------------------------------------ Python mirror of `rowGuarded` (diagnostics only)
+
+BYTES = [(b, c) for b in ('char', 'uchar', 'byte') for c in (False, True)]
+
+
+def _conv(f, t):
+    return f[0] == t[0] and (not f[1] or t[1])
+
+
+def _admits(g, vb, cb):
+    if g == 'writable':
+        return not vb[1]
+    if g == 'cursorWriteable':
+        return _conv(vb, cb) and not vb[1] and not cb[1]
+    if g == 'cursorCompatible':
+        return _conv(vb, cb)
+    return True
+
+
+def can_write(rows, fuel, r, vb, cb):
+    if fuel == 0:
+        return True
+    if not _admits(r['guard'], vb, cb):
+        return False
+    for h in r['handles']:
+        if (h in ('element', 'viewPtr') and not vb[1]) or (h == 'cursorPtr' and not cb[1]):
+            return True
+    return any(can_write(rows, fuel - 1, rows[i], vb, cb) for i in r['callee_ids'])
+
+
+def failing_rows(report):
+    """rows of the extracted table that violate what `C11.table_guarded` decides;
+    used to name the offending overloads when the theorem no longer builds"""
+    rows = {r['id']: r for r in report.get('table', [])}
+    fuel = report.get('fuel', 10)
+    out = []
+    for r in rows.values():
+        why = []
+        if r['guard'] == 'misdirected':
+            why.append('guard arguments in an unexpected order')
+        if r.get('takesOtherByte') and r['guard'] not in ('convertible', 'cursorCompatible'):
+            why.append('takes another instantiation (Byte2) without a conversion guard')
+        if r['writes']:
+            if r['guard'] == 'none':
+                why.append('writes but no rejection mechanism was found')
+            if r['origin'] == 'generator' and r['guard'] not in ('writable', 'cursorWriteable', 'forwarded'):
+                why.append('generated mutator without a SFINAE guard (guard=%s)' % r['guard'])
+            for vb in BYTES:
+                for cb in BYTES:
+                    if vb[1] and cb[1] and can_write(rows, fuel, r, vb, cb):
+                        why.append('can write with view=%s cursor=%s' % (vb, cb))
+                    elif r['scope'] == 'api' and (vb[1] or (r['usesCursor'] and cb[1])) and can_write(rows, fuel, r, vb, cb):
+                        why.append('public overload can write with view=%s cursor=%s' % (vb, cb))
+        if why:
+            out.append({'cls': r['cls'], 'name': r['name'], 'sig': r['sig'], 'line': r['line'], 'guard': r['guard'],
+                        'why': sorted(set(why))[:4]})
+    return out
 
 
 def write_if_changed(path, text):
